@@ -12,6 +12,7 @@ import sys
 HERE = os.path.dirname(os.path.abspath(__file__))
 sys.path.insert(0, os.path.join(HERE, "..", "..", "tools"))
 from vlib import c13lib as L  # noqa: E402
+from props import c13 as C  # noqa: E402
 
 for path in sorted(glob.glob(os.path.join(HERE, "*.json"))):
     with open(path) as fh:
@@ -19,6 +20,8 @@ for path in sorted(glob.glob(os.path.join(HERE, "*.json"))):
     for case in data if isinstance(data, list) else [data]:
         obs = L.run_bundle(case["bundle"])
         verdicts = L.judge(case["bundle"], obs, case.get("kind", "corpus"))
+        if not verdicts:
+            verdicts = C.misread_verdicts(case.get("kind", "corpus"), C.misread_of([(case["bundle"], obs)])[0], case["bundle"]["main"])
         n, c = obs["normal"], obs["check"]
         print(os.path.basename(path), "|", case.get("what", "")[:90])
         print("   normal:", n["out"], n.get("exc", {}).get("cls", ""), "| check:", c["out"], c.get("exc", {}).get("cls", ""), c["warnings"])
